@@ -188,9 +188,9 @@ ROUNDS_MORE = [
     C(["co", "co"], [3, 2], aw=[1, 2]),
     C(["bl", "bl"], [2, 2], foreign=[2]),
     C(["co", "co", "co"], [2, 2, 1], aw=[1]),
-    C(["co", "co", "bl"], [2, 2, 1], foreign=[1]),
+    C(["co", "co", "bl"], [2, 1, 1], foreign=[1]),
     C(["co", "bl", "try"], [2, 2, 2], aw=[1]),
-    C(["co", "co", "co"], [2, 1, 1], foreign=[1, 2]),
+    C(["co", "co", "co"], [2, 1, 1], foreign=[1]),
 ]
 
 
